@@ -173,7 +173,17 @@ def run_stream(spec):
         if rng.random() < 0.04:
             level, sd, perr = rng.uniform(-5, 8), rng.uniform(0.3, 2), rng.uniform(0.05, 0.8)
         row = np.array([[round(rng.gauss(level, sd), 3) for _ in range(3)]])
-        X = pd.DataFrame(row, columns=["a", "b", "c"]) if spec["frame"] else row
+        if spec.get("reuse"):
+            # the caller reads every observation into ONE preallocated container and hands that same object over each time
+            if t == 0 or "_X" not in spec:
+                spec["_X"] = pd.DataFrame(np.zeros((1, 3)), columns=["a", "b", "c"]) if spec["frame"] else np.zeros((1, 3))
+            X = spec["_X"]
+            if spec["frame"]:
+                X.iloc[0, :] = row[0]
+            else:
+                X[:] = row
+        else:
+            X = pd.DataFrame(row, columns=["a", "b", "c"]) if spec["frame"] else row
         yt, yp = 1, (0 if rng.random() < perr else 1)
         np.random.seed(1000 + t)
         ens.update(X, yt, yp)
@@ -183,6 +193,7 @@ def run_stream(spec):
             twins[k].update(X=Xk, y_true=yt, y_pred=yp)
         ev.append(event("update", ens, keys, twins, spec["election"]["kind"]))
     e = spec["election"]
+    spec.pop("_X", None)
     return {"cfg": {"n": len(keys), "kind": e["kind"], "a": e["a"], "c": e["c"]}, "ev": ev, "spec": spec}
 
 
@@ -203,9 +214,20 @@ def run_batch(spec):
     ens = BatchEnsemble(dets, make_election(spec["election"]), sels)
     nprng = np.random.RandomState(spec["seed"])
 
+    m_fixed = nprng.randint(16, 30)
+    held = {}
+
     def batch(level, sd):
-        m = nprng.randint(16, 30)
+        m = m_fixed if spec.get("reuse") else nprng.randint(16, 30)
         a = np.round(nprng.normal(level, sd, size=(m, 3)) * 2) / 2
+        if spec.get("reuse"):       # fixed-size chunks read into one container that is handed over again and again
+            if "X" not in held:
+                held["X"] = pd.DataFrame(np.zeros((m, 3)), columns=["a", "b", "c"]) if spec["frame"] else np.zeros((m, 3))
+            if spec["frame"]:
+                held["X"].iloc[:, :] = a
+            else:
+                held["X"][:] = a
+            return held["X"]
         return pd.DataFrame(a, columns=["a", "b", "c"]) if spec["frame"] else a
 
     ev = []
@@ -259,7 +281,7 @@ def random_spec(rng, kind):
     n = rng.randint(80, 160) if kind == "stream" else rng.randint(8, 14)
     return {"seed": rng.randrange(10 ** 6), "members": members, "election": el, "frame": rng.random() < 0.5, "n": n,
             "resets": sorted(rng.sample(range(2, n), rng.randint(0, 2))), "kind": kind,
-            "replace_at": rng.randint(n // 3, n - 5) if kind == "stream" and rng.random() < 0.5 else -1}
+            "replace_at": rng.randint(n // 3, n - 5) if kind == "stream" and rng.random() < 0.5 else -1, "reuse": rng.random() < 0.3}
 
 
 def sabotage(trace, rng):
